@@ -32,7 +32,9 @@ def check(run):
     cfg = "10001"
     oracle_fail, all_mism = [], []
     geoms = [{}, {"ARDUINOJSON_POOL_CAPACITY": 4, "ARDUINOJSON_INITIAL_POOL_COUNT": 1}, {"ARDUINOJSON_SLOT_ID_SIZE": 1, "ARDUINOJSON_POOL_CAPACITY": 8, "ARDUINOJSON_INITIAL_POOL_COUNT": 2},
-             {"ARDUINOJSON_USE_LONG_LONG": 0, "ARDUINOJSON_POOL_CAPACITY": 8}]
+             {"ARDUINOJSON_USE_LONG_LONG": 0, "ARDUINOJSON_POOL_CAPACITY": 8},
+             # a string-length type narrower than the slot-id type: more users of one string than a length can count
+             {"ARDUINOJSON_SLOT_ID_SIZE": 2, "ARDUINOJSON_STRING_LENGTH_SIZE": 1, "ARDUINOJSON_POOL_CAPACITY": 64}]
     nh = 1500 if thorough else 200
     for gi, defs in enumerate(geoms):
         impl = vlib.need_harness("hist_h", cfg, defs)
@@ -101,7 +103,8 @@ def check(run):
             if "leaked=0" not in trailer or "MISUSE" in trailer:
                 oracle_fail.append((cfg, "HRUN 1 0 - " + s[:2000], "memory returned", trailer))
         # equal copied strings are stored once and released when the last user disappears
-        for users, text in ((30, b"a-string-of-20-bytes"), (3, b""), (200, b"x" * 100)):
+        many = ((255, b"shared"), (256, b"shared"), (257, b"shared"), (300, b"k")) if defs.get("ARDUINOJSON_STRING_LENGTH_SIZE") == 1 else ()
+        for users, text in ((30, b"a-string-of-20-bytes"), (3, b""), (200, b"x" * 100)) + many:
             if defs.get("ARDUINOJSON_SLOT_ID_SIZE") == 1 and users > 100:
                 continue
             s = script_dedup(users, text)
@@ -110,6 +113,12 @@ def check(run):
             steps, trailer = histcheck.parse_run(io[1]) if len(io) > 1 else ([], "")
             if len(steps) != 1 + 2 * users:
                 oracle_fail.append((cfg, "HRUN 1 0 - " + s[:2000], "history runs", (c2 or "")[-300:])); continue
+            mo, _ = vlib.run_lines(model, ["CFG " + cfg, "HEXP 1 " + s])
+            exp = [x for x in mo[1].split(" ;; ") if x.strip()]
+            kdiv = histcheck.first_divergence(exp, steps)
+            if kdiv is not None:
+                oracle_fail.append((cfg, "HRUN 1 0 - " + s[:3000], f"step {kdiv}: the other users of a shared string are intact: {exp[kdiv][:120]} [geometry {defs}]", steps[kdiv][0][:200] if kdiv < len(steps) else "missing"))
+                continue
             adds = steps[1:1 + users]
             rms = steps[1 + users:]
             # live blocks: pools + table + exactly one string node, whatever the number of users
